@@ -103,7 +103,7 @@ def add_gear_mating(
             "Parameter 'efficiency' must be a float or an integer."
         )
 
-    if efficiency > 1 or efficiency < 0:
+    if not 0 <= efficiency <= 1:
         raise ValueError("Parameter 'efficiency' must be within 0 and 1.")
 
     if master.module is not None and slave.module is not None:
@@ -309,7 +309,7 @@ def add_worm_gear_mating(
             "Parameter 'friction_coefficient' must be a float or an integer."
         )
 
-    if friction_coefficient > 1 or friction_coefficient < 0:
+    if not 0 <= friction_coefficient <= 1:
         raise ValueError(
             "Parameter 'friction_coefficient' must be within 0 and 1."
         )
@@ -341,7 +341,7 @@ def add_worm_gear_mating(
         worm_gear.helix_angle.tan()
     )
 
-    if efficiency > 1 or efficiency < 0:
+    if not 0 <= efficiency <= 1:
         raise ValueError(
             f"The mating efficiency of gears {master.name!r} and "
             f"{slave.name!r} computed from 'friction_coefficient' must be "
